@@ -55,6 +55,7 @@ int Item::value() const { Guard g; if (m_magic != MAGIC) sim_event("BADMAGIC val
 void Item::set(int v) { Guard g; if (m_magic != MAGIC) sim_event("BADMAGIC set"); m_value = v; m_label = "obj-" + std::to_string(v); sim_obj_value(m_id, v); }
 int Item::ident() const { Guard g; return m_id; }
 const std::string &Item::label() const { Guard g; return m_label; }
+int Item::combine(const Item &other) const { Guard g; if (m_magic != MAGIC || other.m_magic != MAGIC) sim_event("BADMAGIC combine"); return m_value * 3 + other.m_value; }
 Item *Item::twin() { Guard g; return new Item(m_value + 1000); }
 
 // ---------------------------------------------------------------- Box (destructor not wrapped)
@@ -88,6 +89,8 @@ Item *defaultItem() {
 Item copyItem(int v) { Guard g; return Item(v); }
 int useItem(const Item *o) { Guard g; return o->value() * 2; }
 int sumItems(const Item &a, const Item &b) { Guard g; return a.value() + b.value(); }
+int passItem(Item arg) { Guard g; return arg.value() + 5; }
+int vecDot(const std::vector<int> &a, const std::vector<int> &b) { Guard g; int s = 0; for (size_t i = 0; i < a.size() && i < b.size(); i++) s += a[i] * b[i]; return s + 1000 * static_cast<int>(a.size()) + 10 * static_cast<int>(b.size()); }
 Box *makeBox(int v) { Guard g; return new Box(v); }
 
 // ---------------------------------------------------------------- strings
